@@ -167,6 +167,7 @@ struct WriteOpts {
   bool write_extents = true;
   bool write_periods = true;
   bool type_key = true;
+  int ext_order = 0;             // 0: KNOTS0..KNOTSn-1, EXTENTS (what the library writes); 1: EXTENTS first; 2: knot extensions in reverse order; 3: an unrelated image extension before the knots (the reader must find extensions by EXTNAME)
 };
 
 inline std::string dfmt(double d) { char b[40]; snprintf(b, sizeof b, "%.17G", d); std::string s = b; if (s.find('.') == std::string::npos && s.find('E') == std::string::npos && s.find("INF") == std::string::npos && s.find("NAN") == std::string::npos) s += "."; return s; }
@@ -194,8 +195,12 @@ inline Bytes encode(const Decoded& d, const WriteOpts& o = WriteOpts()) {
     for (double x : v) w.put_double(x);
     w.pad_data();
   };
-  for (uint32_t i = 0; i < d.ndim; i++) ext("KNOTS" + std::to_string(i), d.knots[i]);
-  if (o.write_extents && d.extents.size() == 2 * d.ndim) ext("EXTENTS", d.extents);
+  bool have_ext = o.write_extents && d.extents.size() == 2 * d.ndim;
+  if (o.ext_order == 1 && have_ext) ext("EXTENTS", d.extents);
+  if (o.ext_order == 3) ext("UNRELATED", std::vector<double>{1.0, 2.0, 3.0});
+  if (o.ext_order == 2) for (uint32_t i = d.ndim; i-- > 0;) ext("KNOTS" + std::to_string(i), d.knots[i]);
+  else for (uint32_t i = 0; i < d.ndim; i++) ext("KNOTS" + std::to_string(i), d.knots[i]);
+  if (o.ext_order != 1 && have_ext) ext("EXTENTS", d.extents);
   return w.out;
 }
 
